@@ -194,7 +194,7 @@ class C02Episode(Episode):
 
 class C02(Prop):
     id = 'C02'
-    level = 'exploration'
+    level = 'fault_enumeration'
     rule = ('one case = one seeded daemon life with stop / restart / rm / quit '
             'sent waiting to watchers with obedient, slow, stubborn and '
             'self-exiting workers, worker deaths placed at kernel-call '
